@@ -81,3 +81,99 @@ Lemma view_nil_load m p : view m p = [] -> load m p = None.
 Proof. intro H. rewrite load_view, H. reflexivity. Qed.
 Lemma view_cons_nonneg m b o c r : view m (Ptr b o) = c :: r -> 0 <= o.
 Proof. cbn. destruct (0 <=? o) eqn:E; [intros _; apply Z.leb_le; exact E | discriminate]. Qed.
+
+(* ------------------------------------------------------------------ updates, and loads / stores / pointer steps at non-negative offsets *)
+Lemma upd_upd {A} : forall (l : list A) i a b, upd (upd l i a) i b = upd l i b.
+Proof. induction l as [|x l IH]; intros [|i] a b; cbn; auto. f_equal. apply IH. Qed.
+
+Lemma upd_nth_id {A} : forall (l : list A) i d, upd l i (nth i l d) = l.
+Proof. induction l as [|x l IH]; intros [|i] d; cbn; auto. f_equal. apply IH. Qed.
+
+Lemma Forall_upd {A} (P : A -> Prop) : forall l i v, Forall P l -> P v -> Forall P (upd l i v).
+Proof.
+  induction l as [|x l IH]; intros [|i] v Hl Hv; cbn; auto.
+  - constructor; [exact Hv | exact (Forall_inv_tail Hl)].
+  - constructor; [exact (Forall_inv Hl) | apply IH; [exact (Forall_inv_tail Hl) | exact Hv]].
+Qed.
+
+(* ------------------------------------------------------------------ memory: a store into block bd *)
+Lemma block_upd_same m bd d : (bd < length m)%nat -> block (upd m bd d) bd = d.
+Proof. intro H. unfold block. apply nth_upd_same. exact H. Qed.
+
+Lemma block_upd_other m bd bs d : bd <> bs -> block (upd m bd d) bs = block m bs.
+Proof. intro H. unfold block. apply nth_upd_other. exact H. Qed.
+
+Lemma view_upd_other m bd bs os d : bd <> bs -> view (upd m bd d) (Ptr bs os) = view m (Ptr bs os).
+Proof. intro H. cbn [view]. rewrite (block_upd_other m bd bs d H). reflexivity. Qed.
+
+Lemma upd_block_id m b : upd m b (block m b) = m.
+Proof. unfold block. apply upd_nth_id. Qed.
+
+Lemma mem_ok_upd m b d : mem_ok m -> bytes_ok d -> mem_ok (upd m b d).
+Proof. intros Hm Hd. unfold mem_ok. apply Forall_upd; assumption. Qed.
+
+Lemma bytes_ok_upd d i c : bytes_ok d -> (c < 256)%N -> bytes_ok (upd d i c).
+Proof. intros Hd Hc. unfold bytes_ok. apply Forall_upd; assumption. Qed.
+
+(* loads, stores and pointer steps at a non-negative offset *)
+Lemma load_nat m b o : load m (Ptr b (Z.of_nat o)) = nth_error (block m b) o.
+Proof.
+  cbn [load]. replace (0 <=? Z.of_nat o) with true by (symmetry; apply Z.leb_le; lia). rewrite Nat2Z.id. reflexivity.
+Qed.
+
+Lemma store_nat m b o v : store m (Ptr b (Z.of_nat o)) v =
+  if Nat.ltb o (length (block m b)) && Nat.ltb b (length m) then Some (upd m b (upd (block m b) o v)) else None.
+Proof.
+  cbn [store]. replace (0 <=? Z.of_nat o) with true by (symmetry; apply Z.leb_le; lia). rewrite Nat2Z.id. cbn [andb].
+  destruct (Nat.ltb_spec o (length (block m b))) as [L|L].
+  - replace (Z.of_nat o <? Z.of_nat (length (block m b))) with true by (symmetry; apply Z.ltb_lt; lia). reflexivity.
+  - replace (Z.of_nat o <? Z.of_nat (length (block m b))) with false by (symmetry; apply Z.ltb_ge; lia). reflexivity.
+Qed.
+
+Lemma padd1_nat m b o : (o < length (block m b))%nat -> padd m (Ptr b (Z.of_nat o)) 1 = Some (Ptr b (Z.of_nat (S o))).
+Proof.
+  intro L. cbn [padd]. replace (0 <=? Z.of_nat o + 1) with true by (symmetry; apply Z.leb_le; lia).
+  replace (Z.of_nat o + 1 <=? Z.of_nat (length (block m b))) with true by (symmetry; apply Z.leb_le; lia).
+  cbn [andb]. f_equal. f_equal. lia.
+Qed.
+
+Lemma upd_app_mid {A} : forall (a : list A) x t v, upd (a ++ x :: t) (length a) v = a ++ v :: t.
+Proof. induction a as [|y a IH]; intros x t v; cbn; [reflexivity|]. f_equal. apply IH. Qed.
+
+Lemma nth_error_app_mid {A} : forall (a : list A) x t, nth_error (a ++ x :: t) (length a) = Some x.
+Proof. induction a as [|y a IH]; intros x t; cbn; [reflexivity|]. apply IH. Qed.
+
+Lemma skipn_cons_ex {A} : forall (l : list A) k, (k < length l)%nat -> exists x, skipn k l = x :: skipn (S k) l.
+Proof.
+  induction l as [|y l IH]; intros [|k] H; cbn [length] in H; try lia.
+  - exists y. reflexivity.
+  - destruct (IH k) as [x Hx]; [lia|]. exists x. exact Hx.
+Qed.
+
+Lemma padd_nat m b o k : (o + k <= length (block m b))%nat ->
+  padd m (Ptr b (Z.of_nat o)) (Z.of_nat k) = Some (Ptr b (Z.of_nat (o + k))).
+Proof.
+  intro L. cbn [padd]. replace (0 <=? Z.of_nat o + Z.of_nat k) with true by (symmetry; apply Z.leb_le; lia).
+  replace (Z.of_nat o + Z.of_nat k <=? Z.of_nat (length (block m b))) with true by (symmetry; apply Z.leb_le; lia).
+  cbn [andb]. f_equal. f_equal. lia.
+Qed.
+
+Lemma padd0_nat m b k : (k <= length (block m b))%nat -> padd m (Ptr b 0) (Z.of_nat k) = Some (Ptr b (Z.of_nat k)).
+Proof. intro L. exact (padd_nat m b 0 k L). Qed.
+
+(* a non-empty view is a suffix of its block *)
+Lemma view_block m b o l : 0 <= o -> view m (Ptr b o) = l -> l <> [] ->
+  block m b = firstn (Z.to_nat o) (block m b) ++ l /\ length (firstn (Z.to_nat o) (block m b)) = Z.to_nat o.
+Proof.
+  intros Ho Hv Hl. cbn [view] in Hv. replace (0 <=? o) with true in Hv by (symmetry; apply Z.leb_le; exact Ho).
+  split.
+  - rewrite <- Hv. symmetry. apply firstn_skipn.
+  - apply firstn_length_le. destruct (Nat.le_gt_cases (Z.to_nat o) (length (block m b))) as [L|L]; [exact L|].
+    rewrite skipn_all2 in Hv by lia. congruence.
+Qed.
+
+Lemma block_view m b o pre l : 0 <= o -> block m b = pre ++ l -> length pre = Z.to_nat o -> view m (Ptr b o) = l.
+Proof.
+  intros Ho Hb Hl. cbn [view]. replace (0 <=? o) with true by (symmetry; apply Z.leb_le; exact Ho).
+  rewrite Hb, <- Hl. rewrite skipn_app, skipn_all, Nat.sub_diag. reflexivity.
+Qed.
